@@ -27,15 +27,37 @@ Proof. vm_compute. auto. Qed.
    not read a value an earlier run left in it *)
 Definition carried_of (l : list (string * string)) : list string :=
   flat_map (fun p => if String.prefix "carried:" (snd p) then [snd p] else []) l.
+(* registers an evaluation reads out of the carried state: does it store its own value first? *)
+Definition contains_preset_policy : write_policy :=
+  match policy_of_string gen_contains_preset_policy with Some p => p | None => WriteNever end.
+Definition variadic_len_policy : write_policy :=
+  match policy_of_string gen_variadic_len_store_policy with Some p => p | None => WriteNever end.
+Definition policy_is_always (p : write_policy) : bool := match p with WriteAlways => true | _ => false end.
+(* the operand stack's inventory: objects / ints are truncated by Call and Reset, variadicLen has one writer (the
+   SetVariadicLen instruction) and one reader (PopVariadic) *)
+Definition known_ValueStack : list string := ["objects"; "ints"; "variadicLen"].
+Definition known_EvalEnv : list string := ["nativeFuncs"; "userFuncs"; "Stack"].
+Definition value_stack_covered : bool :=
+  strs_eqb gen_fields_ValueStack known_ValueStack && strs_eqb gen_fields_EvalEnv known_EvalEnv &&
+  strs_eqb gen_variadic_len_writers ["eval.go:eval:stack.variadicLen = int(code[pc+1])"] &&
+  strs_eqb gen_variadic_len_readers ["quasigo.go:ValueStack.PopVariadic"].
+
 Definition reset_evidence (c : string) : bool :=
   if String.eqb c "carried:nodePath" then gen_state_reset_when_reused && gen_reset_truncates_node_path
-  else if String.eqb c "carried:evalEnv" then gen_state_reset_when_reused && gen_reset_resets_eval_stack && gen_quasigo_call_truncates_stack
+  else if String.eqb c "carried:evalEnv" then
+    gen_state_reset_when_reused && gen_reset_resets_eval_stack && gen_quasigo_call_truncates_stack &&
+    value_stack_covered && policy_is_always variadic_len_policy
   else if String.eqb c "carried:typematchState" then gen_typematch_resets_bindings_per_match
-  else if String.eqb c "carried:gogrepSubState" then gen_contains_sets_preset_before_use
+  else if String.eqb c "carried:gogrepSubState" then policy_is_always contains_preset_policy
   else if String.eqb c "carried:gogrepState" then true        (* gogrep's MatchNode resets pc / captures itself: trusted *)
   else false.
 Lemma carried_all_reset : forallb reset_evidence (carried_of gen_rr_literal ++ carried_of gen_fp_literal) = true.
 Proof. vm_compute. reflexivity. Qed.
+
+Lemma contains_preset_always : contains_preset_policy = WriteAlways.
+Proof. vm_compute. reflexivity. Qed.
+Lemma variadic_len_always : variadic_len_policy = WriteAlways /\ value_stack_covered = true.
+Proof. vm_compute. auto. Qed.
 
 (* the walk-scoped context starts at its zero value: the fresh filterParams literal does not mention it and
    nothing but the walker writes it *)
